@@ -13,9 +13,9 @@ cd $W
 if ! git apply --check $SRC/patch.diff 2>/dev/null; then echo "$P $M: patch does not apply to HEAD"; exit 2; fi
 DEMO=$DIR/zz_seed_demo_test.go
 cp $SRC/demo_test.go $DEMO
-go test -vet=off -count=1 ./$DIR/ >/tmp/seed.$$.clean 2>&1; CLEAN=$?
+go test ${SEED_TESTFLAGS:-} -vet=off -count=1 ./$DIR/ >/tmp/seed.$$.clean 2>&1; CLEAN=$?
 git apply $SRC/patch.diff
-go test -vet=off -count=1 -timeout 120s ./$DIR/ >/tmp/seed.$$.mut 2>&1; MUT=$?
+go test ${SEED_TESTFLAGS:-} -vet=off -count=1 -timeout 300s ./$DIR/ >/tmp/seed.$$.mut 2>&1; MUT=$?
 rm $DEMO
 go build ./... >/tmp/seed.$$.build 2>&1; BUILD=$?
 go test -vet=off -count=1 ./... >/tmp/seed.$$.suite 2>&1; SUITE=$?
